@@ -1,7 +1,8 @@
 CONSTANTS
-  MaxBlocks = 3
+  MaxBlocks = 2
   MaxBlocksAll = 2
-  ExtraKinds <- NoKinds
+  ExtraKinds <- LongKinds
+  ExtraKindsAll <- NoKinds
   BigCounts <- BigQuick
 SPECIFICATION Spec
 INVARIANTS MachineOK FormOK EncodingsOK GenExact EmitCase
